@@ -1,4 +1,5 @@
 import FmpRpc.Proofs.TransportInv
+import FmpRpc.Proofs.TransportInvA9
 /-
   C12 — the caller's result buffer is never written after the call returned.
 
@@ -30,21 +31,44 @@ def lateTrace : List Act :=
 
 theorem late_write_counterexample :
     ∃ s, run init lateTrace = some s ∧ ¬ NoLateWrite s.hist := by
-  sorry
+  have h : (run init lateTrace).map (fun s => s.hist) = some
+      [.issued 0 0, .handoff 0, .notifier 0 0, .write 0, .writeDone 0 .nil, .delivered (.resp 0 42 false),
+       .handoff 1, .returned 0 (.err .ctx), .resWritten 0] := rfl
+  cases hrun : run init lateTrace with
+  | none => rw [hrun] at h; simp at h
+  | some s =>
+    rw [hrun] at h
+    simp only [Option.map_some, Option.some.injEq] at h
+    refine ⟨s, rfl, ?_⟩
+    intro hn
+    exact hn 0 7 8 (by rw [h]; rfl) (by omega) (by rw [h]; rfl)
 
 /-- every write into the buffer precedes the signal: a call that returns *by
     receiving its reply* has all writes of that reply before its return -/
 theorem write_before_signal (s : St) (hr : Reachable s) (c : Nat) (p : Nat) (ae : Bool)
     (h : (s.callers c).rslot = some (p, ae)) :
     Evt.resWritten c ∈ s.hist ∧ (s.callers c).bufSeq = some (s.callers c).seq := by
-  sorry
+  have hb := ((CInv_reach s hr).loc c).slot _ h
+  exact ⟨(HInv_reach s hr).rw c _ hb, hb⟩
 
-/-- the receive loop writes into a buffer only between looking the call up
-    and offering the reply: outside those two program points nothing writes -/
-theorem writes_only_in_decode (s s' : St) (a : Act) (c : Nat) (hs : step s a = some s')
-    (hb : (s'.callers c).buf ≠ (s.callers c).buf) :
-    a = .rDecode ∧ ∃ q p ae, s.r = .respDecode c q p ae := by
-  sorry
+/- `writes_only_in_decode` was first stated without a reachability hypothesis;
+   that version is false in unreachable states (counterexample below) and was
+   replaced by `writes_only_in_decode_corrected`. -/
+
+/-- the hypothesis-free statement fails in an unreachable state: a caller slot that is
+    `absent` but whose buffer is not in its initial state is reset by
+    `callStart` -/
+theorem writes_only_in_decode_counterexample :
+    ∃ (s s' : St) (a : Act) (c : Nat), step s a = some s' ∧ (s'.callers c).buf ≠ (s.callers c).buf ∧
+      a ≠ .rDecode :=
+  ⟨{ callers := fun _ => { buf := 5 } }, _, .callStart 0, 0, rfl, by decide, by simp⟩
+
+/-- CORRECTED `writes_only_in_decode`: in every reachable state the only step that
+    changes a caller's buffer is the receive loop's decode of a looked-up reply -/
+theorem writes_only_in_decode_corrected (s s' : St) (hr : Reachable s) (a : Act) (c : Nat)
+    (hs : step s a = some s') (hb : (s'.callers c).buf ≠ (s.callers c).buf) :
+    a = .rDecode ∧ ∃ q p ae, s.r = .respDecode c q p ae :=
+  buf_step s s' a c (CInv_reach s hr) hs hb
 
 /-- PARTIAL: once a call has returned and the receive loop is not holding a
     looked-up reference to it, no later write can happen unless the peer sends
@@ -55,6 +79,24 @@ theorem no_late_write_partial (s : St) (hr : Reachable s) (c : Nat) (o : Out)
     (hret : (s.callers c).pc = .ret o)
     (hnoref : ∀ q p ae, s.r ≠ .respDecode c q p ae) :
     ∀ acts s', run s acts = some s' → (s'.callers c).buf = (s.callers c).buf := by
-  sorry
+  intro acts
+  induction acts generalizing s with
+  | nil => intro s' h; simp [run] at h; subst h; rfl
+  | cons a as ih =>
+    intro s' h
+    simp only [run] at h
+    cases hst : step s a with
+    | none => rw [hst] at h; simp at h
+    | some s1 =>
+      rw [hst] at h
+      have hC := CInv_reach s hr
+      obtain ⟨hpc1, hnr1⟩ := ret_stable s s1 a c o hC hst hret hnoref
+      have hbuf : (s1.callers c).buf = (s.callers c).buf := by
+        by_cases hb : (s1.callers c).buf = (s.callers c).buf
+        · exact hb
+        · obtain ⟨-, q, p, ae, hq⟩ := buf_step s s1 a c hC hst hb
+          exact absurd hq (hnoref q p ae)
+      rw [← hbuf]
+      exact ih s1 (Reachable.step s s1 a hr hst) hpc1 hnr1 s' h
 
 end FmpRpc.C12
